@@ -45,7 +45,7 @@ var c15Alphabet = []qOp{
 func c15EnumCount(tier string) int {
 	maxLen := 4
 	if tier == "thorough" {
-		maxLen = 5
+		maxLen = 6
 	}
 	n, p := 0, 1
 	for l := 1; l <= maxLen; l++ {
@@ -57,12 +57,12 @@ func c15EnumCount(tier string) int {
 
 func (c15) NRuns(tier string) int {
 	if tier == "thorough" {
-		return c15EnumCount(tier) + 2000000
+		return c15EnumCount(tier) + 4000000
 	}
 	return c15EnumCount(tier) + 20000
 }
 func (c15) Rule() string {
-	return "operation histories on a real PacketQueue against a flat byte model; receive side: AddPacket (bodies of 0..3 packets' worth, EOM flag) interleaved with Bytes(n), Byte, typed reads, String, Read(p), Position/SetPosition (only saved positions not invalidated by a discard), DiscardUntilCurrentPosition, Reset; send side: WriteBytes and typed writes at the end, packet size changes 9..600 between writes, then rewind and read back; up to 40 operations; enumerated part: ALL receive-side sequences up to length 4 (thorough: 5) over a 10-symbol alphabet at packet size 10; non-trivial = a read or write crossed a packet boundary; distinct = distinct operation sequence"
+	return "operation histories on a real PacketQueue against a flat byte model; receive side: AddPacket (bodies of 0..3 packets' worth, EOM flag) interleaved with Bytes(n), Byte, typed reads, String, Read(p), Position/SetPosition (only saved positions not invalidated by a discard), DiscardUntilCurrentPosition, Reset; send side: WriteBytes and typed writes at the end, packet size changes 9..600 between writes, then rewind and read back; up to 40 operations; enumerated part: ALL receive-side sequences up to length 4 (thorough: 6) over a 10-symbol alphabet at packet size 10; non-trivial = a read or write crossed a packet boundary; distinct = distinct operation sequence"
 }
 func (c15) Components() map[string]string {
 	return map[string]string{"tds.PacketQueue": "real (rewritten; its mutex goes through simrt)", "everything else": "not involved (one task, no transport, no clock)"}
